@@ -118,20 +118,19 @@ def build(node, owned=None):
                 out = out + M
             return out
         return ops.Sum(*Ms)
-    if k == "Kronecker":
-        if via == "fn":
+    if k in ("Kronecker", "KronSum"):
+        f = cola.kron if k == "Kronecker" else cola.kronsum
+        if via == "fn":  # left-nested: ((A x B) x C)
             out = Ms[0]
             for M in Ms[1:]:
-                out = cola.kron(out, M)
+                out = f(out, M)
             return out
-        return ops.Kronecker(*Ms)
-    if k == "KronSum":
-        if via == "fn":
-            out = Ms[0]
-            for M in Ms[1:]:
-                out = cola.kronsum(out, M)
+        if via == "fn-right":  # right-nested: (A x (B x C))
+            out = Ms[-1]
+            for M in reversed(Ms[:-1]):
+                out = f(M, out)
             return out
-        return ops.KronSum(*Ms)
+        return ops.Kronecker(*Ms) if k == "Kronecker" else ops.KronSum(*Ms)
     if k == "BlockDiag":
         mult = node.get("mult")
         if via == "fn" and mult is None:
